@@ -123,18 +123,21 @@ fn expected_segs(case: &Case, base: i64, thread: &str, needs_ts: bool) -> Vec<Se
             t += step;
         }
         for m in &r.inner {
-            let ir = Rc {
-                msg: m.clone(),
-                level: 3,
-                module: Some(module_path!().to_string()),
-                file: Some(file!().to_string()),
-                line: Some(INNER_LINE.load(std::sync::atomic::Ordering::SeqCst)),
-                kv: vec![],
-                inner: vec![],
-            };
-            segs.push(seg_of(&ir, m, t));
+            let (list, reads) = inner_records(m);
+            for (text, line, off) in list {
+                let ir = Rc {
+                    msg: text.clone(),
+                    level: 3,
+                    module: Some(module_path!().to_string()),
+                    file: Some(file!().to_string()),
+                    line: Some(line),
+                    kv: vec![],
+                    inner: vec![],
+                };
+                segs.push(seg_of(&ir, &text, if needs_ts { t + off * step } else { t }));
+            }
             if needs_ts {
-                t += step;
+                t += reads * step;
             }
         }
         segs.push(seg_of(r, &text, outer_t));
@@ -147,6 +150,7 @@ fn inner_line_probe() {
     // is not enough (the line is stored inside the loop), so log one inner record into nowhere
     plug(None);
     let _ = format!("{}", Recursive { inner: vec!["probe".into()] });
+    let _ = format!("{}", InnerArg(">probe"));
 }
 
 #[derive(Serialize, Deserialize)]
@@ -323,9 +327,34 @@ static INNER_LINE: std::sync::atomic::AtomicU32 = std::sync::atomic::AtomicU32::
 impl std::fmt::Display for Recursive {
     fn fmt(&self, f: &mut std::fmt::Formatter) -> std::fmt::Result {
         for m in &self.inner {
-            { INNER_LINE.store(line!(), std::sync::atomic::Ordering::SeqCst); log::info!(target: "inner", "{}", m); }
+            { INNER_LINE.store(line!(), std::sync::atomic::Ordering::SeqCst); log::info!(target: "inner", "{}", InnerArg(m)); }
         }
         f.write_str("<R>")
+    }
+}
+/// argument of an inner record: an inner message ">xyz" stands for an inner record that logs the
+/// innermost record "xyz" from its own Display implementation (two levels of nesting) and
+/// renders as "<N>"
+struct InnerArg<'a>(&'a str);
+static INNER2_LINE: std::sync::atomic::AtomicU32 = std::sync::atomic::AtomicU32::new(0);
+impl std::fmt::Display for InnerArg<'_> {
+    fn fmt(&self, f: &mut std::fmt::Formatter) -> std::fmt::Result {
+        match self.0.strip_prefix('>') {
+            Some(x) => {
+                { INNER2_LINE.store(line!(), std::sync::atomic::Ordering::SeqCst); log::info!(target: "inner", "{}", x); }
+                f.write_str("<N>")
+            }
+            None => f.write_str(self.0),
+        }
+    }
+}
+/// the renderings an inner message stands for, in the order in which they are written out:
+/// (text, source line, offset of its clock reading in steps), and the number of clock readings
+fn inner_records(m: &str) -> (Vec<(String, u32, i64)>, i64) {
+    let l1 = INNER_LINE.load(std::sync::atomic::Ordering::SeqCst);
+    match m.strip_prefix('>') {
+        Some(x) => (vec![(x.to_string(), INNER2_LINE.load(std::sync::atomic::Ordering::SeqCst), 1), ("<N>".to_string(), l1, 0)], 2),
+        None => (vec![(m.to_string(), l1, 0)], 1),
     }
 }
 
@@ -364,7 +393,7 @@ fn rc_strat(allow_inner: bool) -> BoxedStrategy<Rc> {
             ),
             0..3,
         ),
-        if allow_inner { prop::collection::vec("[a-z]{1,6}", 0..3).boxed() } else { Just(Vec::new()).boxed() },
+        if allow_inner { prop::collection::vec(prop_oneof![3 => "[a-z]{1,6}", 1 => ">[a-z]{1,6}"], 0..3).boxed() } else { Just(Vec::new()).boxed() },
     )
         .prop_map(|(msg, level, module, file, line, kv, inner)| {
             // keys unique (a map in JSON)
@@ -601,24 +630,27 @@ impl Property for P {
                 t += step;
             }
             for m in &r.inner {
-                let ir = Rc {
-                    msg: m.clone(),
-                    level: 3,
-                    module: Some(module_path!().to_string()),
-                    file: Some(file!().to_string()),
-                    line: Some(INNER_LINE.load(std::sync::atomic::Ordering::SeqCst)),
-                    kv: vec![],
-                    inner: vec![],
-                };
-                segs.push(seg_of(&ir, m, t));
+                let (list, reads) = inner_records(m);
+                for (text, line, off) in list {
+                    let ir = Rc {
+                        msg: text.clone(),
+                        level: 3,
+                        module: Some(module_path!().to_string()),
+                        file: Some(file!().to_string()),
+                        line: Some(line),
+                        kv: vec![],
+                        inner: vec![],
+                    };
+                    segs.push(seg_of(&ir, &text, if needs_ts { t + off * step } else { t }));
+                }
                 if needs_ts {
-                    t += step;
+                    t += reads * step;
                 }
             }
             segs.push(seg_of(r, &text, outer_t));
             // one timestamp per record: the clock is read at most once per record
             let reads = if step > 0 { (after - before) / step } else { 0 };
-            let allowed = if needs_ts { (1 + r.inner.len()) as i64 } else { 0 };
+            let allowed = if needs_ts { 1 + r.inner.iter().map(|m| inner_records(m).1).sum::<i64>() } else { 0 };
             if step > 0 && reads > allowed && failure.is_none() {
                 failure = Some((
                     "clock-read-more-than-once-per-record".into(),
@@ -675,6 +707,9 @@ impl Property for P {
         let recursive = case.recs.iter().any(|r| !r.inner.is_empty());
         if tricky {
             out.class("tricky-message");
+        }
+        if case.recs.iter().any(|r| r.inner.iter().any(|m| m.starts_with('>'))) {
+            out.class("recursive-two-levels");
         }
         if recursive {
             out.class("recursive");
